@@ -1462,11 +1462,43 @@ def snapshot(v):
   outside the symbolic fields (cached parents, the progress label, element
   ids derived from id(), caches inside pg.Html objects) is not part of it."""
   try:
-    return 'json:' + json.dumps(_no_opaque(pg.to_json(v)), sort_keys=True)
+    text = 'json:' + json.dumps(_no_opaque(pg.to_json(v)), sort_keys=True)
   except Exception:  # pylint: disable=broad-except
     # pg.Ref nodes and local classes have no JSON form: the same description
     # read from the symbolic fields.
-    return 'json:' + json.dumps(_describe(v), sort_keys=True)
+    text = 'json:' + json.dumps(_describe(v), sort_keys=True)
+  # pg.Html members are opaque to JSON; what they say publicly (their content
+  # and the shared parts they carry) is data of the value: a rendering that
+  # adds parts to an embedded fragment modifies the value.
+  frags = _html_members(v)
+  if frags:
+    text += '\nhtml:' + json.dumps(frags, sort_keys=True)
+  return text
+
+
+def _html_members(v, out=None, seen=None):
+  out = [] if out is None else out
+  seen = set() if seen is None else seen
+  if id(v) in seen:
+    return out
+  seen.add(id(v))
+  if isinstance(v, pg.Html):
+    try:
+      out.append([v.content,
+                  {k: sorted((str(x), n) for x, n in dict(p.parts).items())
+                   for k, p in v.shared_parts.items()}])
+    except Exception:  # pylint: disable=broad-except
+      out.append(['<undescribable pg.Html>'])
+  elif isinstance(v, pg.Symbolic):
+    for _, x in v.sym_items():
+      _html_members(x, out, seen)
+  elif isinstance(v, (list, tuple)):
+    for x in v:
+      _html_members(x, out, seen)
+  elif isinstance(v, dict):
+    for x in v.values():
+      _html_members(x, out, seen)
+  return out
 
 
 def _describe(v):
@@ -1520,9 +1552,14 @@ def changed_value(before, after, default):
     return None
   mech = default
   if before.startswith('json:') and after.startswith('json:'):
-    owner, field = _changed_field(json.loads(before[5:]), json.loads(after[5:]))
-    if owner is not None:
-      mech = f'render:{owner}.{field}'
+    bj, _, bh = before[5:].partition('\nhtml:')
+    aj, _, ah = after[5:].partition('\nhtml:')
+    if bj == aj and bh != ah:
+      mech = default + '/embedded-html'
+    else:
+      owner, field = _changed_field(json.loads(bj), json.loads(aj))
+      if owner is not None:
+        mech = f'render:{owner}.{field}'
   return mech, f'before: {before}\nafter:  {after}'
 
 
